@@ -110,13 +110,28 @@ func Packet(r *rand.Rand, maxOpts int) (*dhcpv4.DHCPv4, *ref4.P4) {
 	for i := range p.TransactionID {
 		p.TransactionID[i] = byte(r.UintN(256))
 	}
-	e.Xid = p.TransactionID
 	p.NumSeconds = uint16(r.UintN(65536))
-	e.Secs = p.NumSeconds
 	p.Flags = uint16(r.UintN(65536))
 	if r.IntN(2) == 0 {
 		p.Flags &= 0x8000
 	}
+	// the edges of every scalar's range are values like any other (a transaction id of 00000000, all-ones fields)
+	switch r.IntN(12) {
+	case 0:
+		p.TransactionID = dhcpv4.TransactionID{}
+	case 1:
+		p.TransactionID = dhcpv4.TransactionID{0xff, 0xff, 0xff, 0xff}
+	case 2:
+		p.OpCode, p.HWType, p.HopCount, p.NumSeconds, p.Flags = 0, 0, 0, 0, 0
+		if r.IntN(2) == 0 {
+			p.TransactionID = dhcpv4.TransactionID{}
+		}
+	case 3:
+		p.OpCode, p.HWType, p.HopCount, p.NumSeconds, p.Flags = 255, 255, 255, 0xffff, 0xffff
+	}
+	e.Op, e.HType, e.Hops = byte(p.OpCode), byte(p.HWType), p.HopCount
+	e.Xid = p.TransactionID
+	e.Secs = p.NumSeconds
 	e.Flags = p.Flags
 	p.ClientIPAddr, e.CI = ip(r)
 	p.YourIPAddr, e.YI = ip(r)
